@@ -4,17 +4,26 @@ package engine
 
 // Verification hook (build tag "verif"): counts VM instructions executed by
 // findMatches and optionally aborts a run that exceeds a step limit.
-// Not synchronised on purpose: the checks that use it are single-goroutine.
+// The counter is not synchronised on purpose: the checks that use it are
+// single-goroutine. VerifAbort may be called from another goroutine (a memory
+// watchdog) and ends the run in progress the same way the step limit does.
+
+import "sync/atomic"
 
 type VerifBudgetExceeded struct{}
 
 var (
 	verifSteps int64
 	verifLimit int64
+	verifAbort atomic.Bool
 )
 
 // VerifSetStepLimit resets the counter and sets the limit (0 = unlimited).
-func VerifSetStepLimit(n int64) { verifLimit = n; verifSteps = 0 }
+func VerifSetStepLimit(n int64) { verifLimit = n; verifSteps = 0; verifAbort.Store(false) }
+
+// VerifAbort makes the run in progress panic with VerifBudgetExceeded at its next
+// instruction.
+func VerifAbort() { verifAbort.Store(true) }
 
 // VerifSteps returns the number of VM instructions executed since the last reset.
 func VerifSteps() int64 { return verifSteps }
@@ -22,6 +31,10 @@ func VerifSteps() int64 { return verifSteps }
 func verifTick() {
 	verifSteps++
 	if verifLimit > 0 && verifSteps > verifLimit {
+		panic(VerifBudgetExceeded{})
+	}
+	if verifAbort.Load() {
+		verifAbort.Store(false)
 		panic(VerifBudgetExceeded{})
 	}
 }
